@@ -381,7 +381,7 @@ func ruleC08VerifyBeforeUse(c *Ctx) {
 					c.bad(rule, index, fmt.Sprintf("verifyHeader#%d after decryptHeader", n), cs.Call.Pos(), "no verifyHeader call precedes this indexHeader call")
 				}
 			}
-			if n < 2 {
+			if n < half(2) {
 				c.unresolved("only %d indexHeader calls in recovery.Index (expected 2: regular and tape branch)", n)
 			}
 		}
@@ -462,7 +462,7 @@ func ruleC08VerifyBeforeUse(c *Ctx) {
 					"header used only after signature.VerifyHeader succeeded on it", "a header read from the tape is used ("+truncate(nodeString(c, node), 60)+") on a path where signature.VerifyHeader has not succeeded for it")
 			}
 		}
-		if n < 3 {
+		if n < half(3) {
 			c.unresolved("only %d header uses found in %s", n, f.Name)
 		}
 		// decrypt precedes verify
@@ -588,7 +588,7 @@ func ruleC08VerifyBeforeUse(c *Ctx) {
 				"verification is skipped although headers read back from the tape can reach the index (the decrypt callback does not replace them from the operation's own snapshot on every path)")
 		}
 	}
-	if nsites < 6 {
+	if nsites < half(6) {
 		c.unresolved("only %d call sites of recovery.Index found (expected 6)", nsites)
 	}
 	// (iv) VerifyHeader: outer header replaced only after VerifyString succeeded; both PAX records demanded
